@@ -168,7 +168,23 @@ def check_C01(tier, seed):
     sem_leg(o, "random-control", ["--family", "control"], n // 3, seed + 2)
     sem_leg(o, "random-seq", ["--family", "seq"], n // 3, seed + 3)
     # translation validation: the real compiler's bytecode on the specification's opcode-level machine
-    sem_and_frames(o, "translation", ["--family", "mixed"], n // 3, seed + 4, steps=3000)
+    tfiles, twd = sem_and_frames(o, "translation", ["--family", "mixed"], n // 3, seed + 4, steps=3000)
+    # the same statement about the DESIGN (no implementation output read): the specified machine running the specified
+    # compiler's code yields what the reference semantics says, on the trees of the translation leg and on the complete
+    # fused-shape family; the specified code passes the bytecode verifier
+    dwd = core.workdir("C01_design")
+    ffiles = gen_files(dwd, "gen-rel", ["--set", "fused-directed", "--seed", 1, "--n", 100], core.NCPU, "fd")
+    fsem = [f + ".sem" for f in ffiles]
+    # two of 32 slices of the control-flow template set (the deviations of the translation scheme need nested loops
+    # with `volgende` and branches that do not end in an expression to show)
+    tcs = []
+    for k in ((3, 17) if tier == "quick" else range(32)):
+        tc = os.path.join(dwd, f"tc{k}.ndjson")
+        core.run_nlh(["gen-templates", "--set", "control", "--steps", 0, "--shards", 32, "--shard", k, "--first-id", k * 1000000 + 1, "--out", tc])
+        tcs.append(tc)
+    # (the result does not depend on the code under test: the quick tier checks a slice, the thorough tier everything)
+    dfiles = (tfiles[:6] + fsem[3:7] + tcs[:1]) if tier == "quick" else (tfiles + fsem + tcs)
+    design_refinement_leg(o, "design-refinement", dfiles, dwd, deviation_files=tfiles[:1] + fsem[3:5] + tcs[:1])
     # non-vacuity of the reference semantics on this input distribution: every action of NlSem is taken
     wd = os.path.join(core.OUT, "C01_random-mixed")
     merged = os.path.join(wd, "coverage_sample.ndjson")
@@ -524,7 +540,8 @@ def vm_files_leg(o, name, files, wd, timeout=1800):
     optab = optab_file(wd)
     ff = []
     for f in files:
-        recs = [r for r in core.read_ndjson(f) if r.get("bc") and r.get("steps") is not None]
+        # (a run the implementation's own instruction budget cut short has no outcome to compare: left out)
+        recs = [r for r in core.read_ndjson(f) if r.get("bc") and r.get("steps") is not None and r["obs"]["class"] != "Budget"]
         g = f + ".vm"
         core.write_ndjson(g, recs)
         if recs:
@@ -617,6 +634,8 @@ def sem_and_frames(o, name, gen_args, n, seed, steps=4000, gen_cmd="gen-sem"):
     sem_files_leg(o, name + "-values", files, wd)
     frames_files_leg(o, name + "-discipline", files, wd)
     vm_files_leg(o, name + "-machine", files, wd)
+    compile_conformance_leg(o, name + "-compiler", files, wd)
+    return files, wd
 
 
 def residue_leg(o, name, files, wd):
@@ -1816,3 +1835,179 @@ def replay(path):
             print(r.raw[-6000:])
             return 1 if (r.violated or any(v.get("class") == "mismatch" for v in r.verdicts)) else 0
     return 0
+
+
+# ---------------------------------------------------------------------------
+# The specified compiler (NlCompiler): conformance of the real one (M3, evidence) and the
+# design-level refinement  NlVM o NlCompiler  refines  NlSem  (M1, no implementation output read)
+# ---------------------------------------------------------------------------
+def compile_conformance_leg(o, name, files, wd, timeout=1500):
+    """The code the real compiler emitted for each tree against Compile(tree) of spec/NlCompiler.tla.
+    A difference is model drift: reported in the evidence, never a violation (other code may mean the same;
+    what the code means is decided by NlSem / NlVM on the same records)."""
+    t0 = time.time()
+    optab = optab_file(wd)
+    ff = []
+    for f in files:
+        recs = [r for r in core.read_ndjson(f) if r.get("bc") is not None and r.get("nodes") is not None
+                and r.get("obs", {}).get("class") not in ("Panic", "Abort", "Timeout", "Fault")]
+        for r in recs:
+            r.pop("steps", None)
+        g = f + ".cmp"
+        core.write_ndjson(g, recs)
+        if recs:
+            ff.append((f, g))
+    results = run_tv_shards([g for _, g in ff], "TV_Compile.tla", "TV_Compile.cfg", wd, timeout=timeout, extra_env={"OPTAB": optab})
+    counts = {}
+    examples = []
+    nrec = 0
+    agreeing = []
+    for (f, g), r in zip(ff, results):
+        o.add_tlc(r)
+        recs = {x["id"]: x for x in core.read_ndjson(g)}
+        srcs = {x["id"]: x["text"] for x in core.read_ndjson(f + ".src")} if os.path.exists(f + ".src") else {}
+        nrec += len(recs)
+        if len(r.verdicts) != len(recs):
+            raise ToolError(f"{name}: {len(r.verdicts)} verdicts for {len(recs)} records in {g}")
+        for v in r.verdicts:
+            key = v["class"] + ":" + v["rule"]
+            counts[key] = counts.get(key, 0) + 1
+            if v["class"] in ("drift", "reject") and len(examples) < 4:
+                examples.append({"text": srcs.get(v["id"], "")[:300], "what": v["rule"], "at_instruction": v.get("at"),
+                                 "model": v.get("model"), "real": v.get("real")})
+            elif v["class"] == "agree" and v["rule"] == "code" and len(agreeing) < 40:
+                agreeing.append(recs[v["id"]])
+    # sensitivity: one changed operand / one swapped constant must be reported as drift
+    tried = rejected = 0
+    bad = []
+    for k, r_ in enumerate(agreeing[:8]):
+        c = copy.deepcopy(r_)
+        code = c["bc"]["code"]
+        if k % 2 == 0 and len(code) > 4:
+            code[1] = (code[1] + 1) % 256               # the first operand byte (or opcode) of the second byte
+        elif c["bc"]["consts"]:
+            c["bc"]["consts"] = c["bc"]["consts"] + [{"t": "I", "v": 424242}]
+        else:
+            continue
+        bad.append(c)
+    if bad:
+        bf = os.path.join(wd, f"corrupt_cmp_{name}.ndjson")
+        core.write_ndjson(bf, bad)
+        rr = core.tlc_or_die("TV_Compile.tla", "TV_Compile.cfg", env={"RECS": bf, "OPTAB": optab}, workdir_=wd)
+        tried = len(bad)
+        rejected = sum(1 for v in rr.verdicts if v["class"] in ("drift", "reject"))
+        if tried != rejected:
+            raise ToolError(f"{name}: sensitivity self-test failed ({rejected}/{tried})")
+    ndrift = sum(n for k, n in counts.items() if not k.startswith("agree") and not k.startswith("skip"))
+    o.legs.append({"leg": name, "records": nrec, "verdicts": counts,
+                   "model_conformance": "ok" if ndrift == 0 else f"the real compiler's output differs from NlCompiler's in {ndrift} records",
+                   "drift_examples": examples, "sensitivity_tried": tried, "sensitivity_rejected": rejected,
+                   "wall_s": round(time.time() - t0, 1)})
+
+
+def design_pipeline(files, wd, tag, deviation="", nfiles=None, optab=None):
+    """trees of `files` -> MC_Compile -> NlBcSafe on the specified code -> MC_Refine. Returns (counts, states, examples)."""
+    optab = optab or optab_file(wd)
+    trees = []
+    for f in files:
+        for r in core.read_ndjson(f):
+            if r.get("nodes") is None:
+                continue
+            trees.append({"id": len(trees) + 1, "nodes": r["nodes"], "root": r["root"], "fam": r.get("fam", ""),
+                          "src": [os.path.basename(f), r["id"]],
+                          "bc": {"code": [], "consts": []}, "obs": {"class": "None", "out": []}})
+    k = max(1, min(nfiles or core.NCPU, len(trees) // 40))
+    tree_files = []
+    for i in range(k):
+        tf = os.path.join(wd, f"{tag}{i}.tree")
+        core.write_ndjson(tf, trees[i::k])
+        tree_files.append(tf)
+    env = {"OPTAB": optab}
+    if deviation:
+        env["DEVIATION"] = deviation
+    ra = run_tv_shards(tree_files, "MC_Compile.tla", "MC_Compile.cfg", wd, extra_env=env)
+    counts = {}
+    states = 0
+    examples = []
+    m1_files = []
+    for tf, r in zip(tree_files, ra):
+        states += r.distinct
+        trees = core.read_ndjson(tf)
+        vec = {v["id"]: v for v in r.vecs}
+        if len(vec) != len(trees):
+            raise ToolError(f"MC_Compile: {len(vec)} results for {len(trees)} trees in {tf}")
+        for t in trees:
+            v = vec[t["id"]]
+            t["bc"] = {"code": v["code"], "consts": v["consts"], "err": v["err"]}
+            if not v["wellformed"]:
+                counts["malformed:jumps"] = counts.get("malformed:jumps", 0) + 1
+        mf = tf[:-5] + ".m1"
+        core.write_ndjson(mf, trees)
+        m1_files.append(mf)
+    # the specified code must pass the bytecode verifier (design-level C02, and no residue: C11)
+    safe_files = []
+    for mf in m1_files:
+        sf = mf + ".bc"
+        core.write_ndjson(sf, [t for t in core.read_ndjson(mf) if t["bc"]["code"]])
+        safe_files.append(sf)
+    rb = run_tv_shards(safe_files, "NlBcSafe.tla", "NlBcSafe.cfg", wd, extra_env={"OPTAB": optab})
+    unsafe = set()
+    for sf, r in zip(safe_files, rb):
+        states += r.distinct
+        for v in r.verdicts:
+            key = "verifier:" + v["class"]
+            counts[key] = counts.get(key, 0) + 1
+            if v["class"] in ("mismatch", "residue"):
+                unsafe.add(v["id"])
+                if len(examples) < 3:
+                    examples.append({"id": v["id"], "stage": "verifier", "viol": v.get("viol", [])[:2]})
+    ref_files = []
+    for mf in m1_files:
+        rf = mf + ".ref"
+        core.write_ndjson(rf, [t for t in core.read_ndjson(mf) if t["id"] not in unsafe])
+        ref_files.append(rf)
+    rc = run_tv_shards(ref_files, "MC_Refine.tla", "MC_Refine.cfg", wd, extra_env={"OPTAB": optab})
+    for rf, r in zip(ref_files, rc):
+        states += r.distinct
+        n = len(core.read_ndjson(rf))
+        if len(r.verdicts) != n:
+            raise ToolError(f"MC_Refine: {len(r.verdicts)} verdicts for {n} trees in {rf}")
+        for v in r.verdicts:
+            key = "refine:" + v["class"] + ":" + v["rule"]
+            counts[key] = counts.get(key, 0) + 1
+            if v["class"] == "mismatch" and len(examples) < 6:
+                examples.append({"id": v["id"], "stage": "refine", "rule": v["rule"]})
+    return counts, states, examples
+
+
+DEVIATIONS = ["fused-any-order", "no-null", "continue-outermost"]
+
+
+def design_refinement_leg(o, name, files, wd, deviation_files=None):
+    """M1: on every tree of `files`, the specified machine (NlVM) running the specified compiler's code (NlCompiler)
+    halts with what the reference semantics (NlSem) says the tree means, and that code passes the bytecode verifier
+    (NlBcSafe). No output of the implementation is read: this is a statement about the design the three
+    specifications describe; the conformance legs tie the implementation to each of them."""
+    t0 = time.time()
+    optab = optab_file(wd)
+    counts, states, examples = design_pipeline(files, wd, "d", optab=optab)
+    o.states += states
+    broken = {k: n for k, n in counts.items() if k.startswith("refine:mismatch") or k.startswith("malformed")
+              or k in ("verifier:mismatch", "verifier:residue")}
+    if broken:
+        # the three specifications disagree with one another: a defect of the model, not of the code under test
+        raise ToolError(f"{name}: the specified compiler / machine / semantics disagree on the unchanged model: {broken} {examples}")
+    # non-vacuity: each deliberate deviation of the translation scheme must be rejected somewhere
+    def run_dev(dev):
+        return design_pipeline(deviation_files or files, wd, "dev_" + dev.replace("-", "") + "_", deviation=dev, nfiles=5, optab=optab)
+    caught = {}
+    for dev, (c2, s2, ex2) in zip(DEVIATIONS, core.parallel(run_dev, DEVIATIONS)):
+        o.states += s2
+        n = sum(v for k, v in c2.items() if k.startswith("refine:mismatch") or k in ("verifier:mismatch", "verifier:residue")
+                or k.startswith("malformed"))
+        caught[dev] = n
+        if n == 0:
+            raise ToolError(f"{name}: the deviation '{dev}' of the translation scheme was not rejected on any tree (vacuous check)")
+    o.legs.append({"leg": name, "trees": sum(v for k, v in counts.items() if k.startswith("refine:")) +
+                   sum(v for k, v in counts.items() if k in ("verifier:mismatch", "verifier:residue")),
+                   "verdicts": counts, "deviations_rejected_on_trees": caught, "wall_s": round(time.time() - t0, 1)})
